@@ -789,3 +789,79 @@ def check_local_applied(ck, prog, rule, files=None):
                           wpath, rr["n"], ex.show(ls)),
                       key="%s:%s:%s:%s" % (rule.split("-", 1)[1], f.name, ls["f"], rr["n"]))
     return n
+
+
+
+# ---------------------------------------------------------------------------------------------------------------
+STALENEXT_EXCEPT = {
+    ("auto_decoder_get_check", "next"):
+        "lzma_get_check() is meaningful only after lzma_code() returned LZMA_NO_CHECK / LZMA_UNSUPPORTED_CHECK / "
+        "LZMA_GET_CHECK, and those come from the sub-decoder of the current session",
+}
+
+
+def check_stale_nested(ck, prog, rule, files=None):
+    """A nested coder that the coding function initialises lazily (in its first state) and that the init function neither
+    ends nor re-initialises still belongs to the PREVIOUS session between a re-initialisation and the first lzma_code()
+    call.  Every other entry point (memconfig, get_check, update, ...) that calls through a slot of that nested coder has
+    to look at coder->sequence first; testing the slot pointer for NULL is not enough, it is non-NULL from the previous
+    session (stale limit/usage reported, a new limit applied to the old decoder)."""
+    from .C10 import coder_records
+    n = 0
+    for f, rec, endname in sorted(coder_records(prog), key=lambda x: (x[0].file, x[0].line)):
+        base = f.file.rsplit("/", 1)[-1]
+        if files is not None and base not in files:
+            continue
+        rdef = prog.records.get(rec)
+        if not rdef:
+            continue
+        for fd_ in rdef["fields"]:
+            if not (fd_.get("ty") or "").startswith("lzma_next_coder"):
+                continue
+            N = fd_["n"]
+
+            def inits_in(g):
+                return [c for b, i, e in g.iter_elems() for c in ex.calls(e, into_refs=False)
+                        if c["args"] and ex.show(c["args"][0]) == "&coder->" + N and
+                        ((c.get("fn") or "").endswith("_init") or c.get("fn") == "lzma_next_end")]
+            if inits_in(f):
+                continue            # (re)initialised or ended by the init function itself
+            others = [g for g in prog.fns_in(base) if g is not f and g.blocks and g.name != endname]
+            lazy = [g for g in others if inits_in(g)]
+            if not lazy:
+                continue
+            cg = common.callgraph(prog)
+            entry_names = set()
+            for (rec_, field_), fns_ in cg.slots.items():
+                entry_names |= set(fns_)
+            for h in others:
+                if h in lazy or h.name not in entry_names:
+                    continue        # helpers of the coding function run after the lazy initialisation
+                uses = [(b, i, x) for b, i, e in h.iter_elems() for x in ex.walk(e)
+                        if x.get("k") == "mem" and ex.show(x.get("b")) == "coder->" + N and
+                        x["f"] in ("memconfig", "get_check", "get_progress", "update", "set_out_limit", "code")]
+                if not uses:
+                    continue
+                n += 1
+                ck.saw_function(h)
+                doms = cfg.dominators(h)
+                exc = STALENEXT_EXCEPT.get((h.name, N))
+                bad = None
+                for (b, i, x) in uses:
+                    guarded = any(h.blocks[d].term and "cond" in h.blocks[d].term and
+                                  "->sequence" in ex.show(h.blocks[d].term["cond"]) for d in doms.get(b.id, ()))
+                    # the use inside the guarding condition itself (`seq != INIT && next.slot != NULL`) is evaluated after it
+                    if not guarded and h.blocks[b.id].term and "cond" in h.blocks[b.id].term:
+                        pass
+                    if not guarded:
+                        bad = bad or x
+                ok = bad is None or exc is not None
+                ck.ob(rule, "%s:%s" % (h.name, N), ok, common.where(h, bad or uses[0][2]),
+                      ("%s: calls through coder->%s only behind a test of coder->sequence" % (h.name, N)
+                       if exc is None or bad is None else "exception: " + exc) if ok else
+                      "%s() calls through coder->%s.%s without looking at coder->sequence: %s() keeps the nested coder of the "
+                      "previous session and it is re-initialised only by the first lzma_code() call (in %s()), so right after a "
+                      "re-initialisation this entry point reports / changes the state of the OLD sub-decoder (stale memory "
+                      "limit and usage, spurious LZMA_MEMLIMIT_ERROR)" % (
+                          h.name, N, bad["f"], f.name, lazy[0].name), key="%s:%s:%s" % (rule.split("-", 1)[1], h.name, N))
+    return n
